@@ -1032,6 +1032,10 @@ def esl_sxp_Sample_leaf (u mu lambda tau : α) : Nat :=
   let x := (mu + ((1.0 / lambda) * (Num.exp ((1.0 / tau) * (Num.log t)))))
   0
 
+/-- the arguments `esl_sxp_Sample` passes to `esl_rnd_Gamma(r, …)` -/
+def esl_sxp_Sample_draw (mu lambda tau : α) : List α :=
+  [(1.0 / tau)]
+
 
 /-- `esl_sxp_generic_pdf` (esl_stretchexp.c:215) -/
 def esl_sxp_generic_pdf (x : α) (params : List α) : α :=
@@ -1402,6 +1406,10 @@ def esl_lognormal_Sample (u mu sigma : α) : α :=
 def esl_lognormal_Sample_leaf (u mu sigma : α) : Nat :=
   let u_ := u
   0
+
+/-- the arguments `esl_lognormal_Sample` passes to `esl_rnd_Gaussian(r, …)` -/
+def esl_lognormal_Sample_draw (mu sigma : α) : List α :=
+  [0.0, 1.0]
 
 
 /-- `esl_vec_DMax` (esl_vectorops.c:289) -/
@@ -1852,6 +1860,13 @@ def dispatchLeaf (name : String) (a : List α) : Option Nat :=
   | "esl_lognormal_pdf", [x0, x1, x2] => some (esl_lognormal_pdf_leaf x0 x1 x2)
   | "esl_lognormal_logpdf", [x0, x1, x2] => some (esl_lognormal_logpdf_leaf x0 x1 x2)
   | "esl_lognormal_Sample", [x0, x1, x2] => some (esl_lognormal_Sample_leaf x0 x1 x2)
+  | _, _ => none
+
+/-- name → the arguments the sampler passes to its primitive draw -/
+def dispatchDraw (name : String) (a : List α) : Option (List α) :=
+  match name, a with
+  | "esl_sxp_Sample", [x0, x1, x2] => some (esl_sxp_Sample_draw x0 x1 x2)
+  | "esl_lognormal_Sample", [x0, x1] => some (esl_lognormal_Sample_draw x0 x1)
   | _, _ => none
 
 /-- name → translated loop-containing function (`some none` = fuel exhausted) and the generic-API wrappers
